@@ -71,7 +71,7 @@ func presenceTable(c *core.Ctx, p *procInfo, lit *ssa.Function) (rs rows, runs i
 		{"uint", func() absint.Value { return typedTok("uint") }, false},
 		{"time.Duration", func() absint.Value { return typedTok("int64") }, false},
 	}
-	exps := []struct{ text, key, def string }{{"a.b", "a.b", ""}, {"a.b:dflt", "a.b", "dflt"}, {"a.b:", "a.b", ""}, {"a.b:x:y", "a.b", "x:y"}}
+	exps := []struct{ text, key, def string }{{"a.b", "a.b", ""}, {"a.b:dflt", "a.b", "dflt"}, {"a.b:", "a.b", ""}, {"a.b:x:y", "a.b", "x:y"}, {"a.b: d ", "a.b", " d "}}
 	for _, v := range vals {
 		for _, e := range exps {
 			var asked, recorded []string
@@ -475,11 +475,11 @@ func replaceAllTable(c *core.Ctx, r *core.Report, rule string) {
 		open  string
 		cases []struct{ in, want string }
 	}
-	dict := map[string]string{"a": "1", "b": "2", "env": "dev", "limits.dev": "42", "x": "${y}", "y": "7", "empty": "", "self": "${self}", "grow": "g${grow}", "hash": "#{1}"}
+	dict := map[string]string{"a": "1", "b": "2", "env": "dev", "limits.dev": "42", "x": "${y}", "y": "7", "empty": "", "self": "${self}", "grow": "g${grow}", "hash": "#{1}", "double": "${double}-${double}", "left": "${right}${right}", "right": "<${left}>"}
 	helpers := []hc{
 		{"NewQuote", "${", []struct{ in, want string }{
 			{"plain", "plain"}, {"${a}", "1"}, {"p${a}q${b}r${a}", "p1q2r1"}, {"${limits.${env}}", "42"}, {"#{${limits.${env}}*2}", "#{42*2}"},
-			{"${x}", "7"}, {"${empty}${a}", "1"}, {"${a}${limits.${env}}", "142"}, {"${boom}", "ERROR"}, {"${self}", "ERROR"}, {"${grow}", "ERROR"}, {"${hash}", "#{1}"}}},
+			{"${x}", "7"}, {"${empty}${a}", "1"}, {"${a}${limits.${env}}", "142"}, {"${boom}", "ERROR"}, {"${self}", "ERROR"}, {"${grow}", "ERROR"}, {"${hash}", "#{1}"}, {"${double}", "ERROR"}, {"${left}", "ERROR"}}},
 		{"NewExpr", "#{", []struct{ in, want string }{{"#{a}+#{b}", "1+2"}, {"${a}", "${a}"}, {"#{limits.#{env}}", "42"}}},
 	}
 	for _, h := range helpers {
